@@ -49,11 +49,13 @@ def fetch() -> list[tuple[str, str, bytes]]:  # noqa: PLR0911
 
     if locked:
         # There is a chance we can unlock without prompting the users...
-        items, prompt = service.Unlock(locked)
+        unlocked, prompt = service.Unlock(locked)
         if prompt != "/":
             _prompt(bus, prompt).Dismiss()
             logger.debug("%s (Keyring is locked)", FETCH_ERROR)
             return []
+        # Keep the items that were not locked in the first place.
+        items = list(items) + list(unlocked)
 
     result = []
     secrets = service.GetSecrets(items, session, byte_arrays=True)
